@@ -197,38 +197,69 @@ INT_NAMES = {'count', 'original_count', 'self.count', 'self.count.value', 'value
 def r7(R, repo):
   m = repo.mod(MT)
   au = m.func('Average.update')
-  src = astu.src(au.node)
-  R.check('self.total.value += values if isinstance(values, (int, float)) else values.sum()' in src and 'self.count.value += 1 if isinstance(values, (int, float)) else values.size' in src, key_of(au, 'total += sum(values); count += number of values'), au,
-          'Average.update must add the sum of the values to total and their number to count')
   R.check('self.total.value / self.count.value' in astu.src(m.func('Average.compute').node), key_of(m.func('Average.compute'), 'total / count'), m.func('Average.compute'), 'Average.compute must be total / count')
   wu = m.func('Welford.update')
   c = cfg_of(wu)
-  oc = [n for n in c.nodes if isinstance(n.stmt, ast.Assign) and astu.src(n.stmt) == 'original_count = self.count.value']
-  inc = [n for n in c.nodes if isinstance(n.stmt, ast.AugAssign) and astu.src(n.stmt) == 'self.count.value += count']
-  dl = [n for n in c.nodes if isinstance(n.stmt, ast.Assign) and astu.src(n.stmt.targets[0]) == 'delta']
-  mu = [n for n in c.nodes if isinstance(n.stmt, ast.AugAssign) and astu.src(n.stmt.target) == 'self.mean.value']
-  ok = len(oc) == 1 and len(inc) == 1 and len(dl) == 1 and len(mu) == 1 and c.dominated(inc[0], oc) and c.dominated(mu[0], dl) and c.dominated(mu[0], inc) and astu.src(mu[0].stmt.value) == 'delta * count / self.count.value' and \
-      astu.src(dl[0].stmt.value).endswith('- self.mean.value')
-  R.check(ok, key_of(wu, 'count_old saved, count advanced, delta from the old mean, mean += delta*n_b/n'), wu, 'Welford.update must save the old count, advance the count, take delta against the old mean and add delta * batch_count / new_count to the mean, in that order')
   m2 = [n for n in c.nodes if isinstance(n.stmt, ast.AugAssign) and astu.src(n.stmt.target) == 'self.m2.value']
   R.require(len(m2) == 1, 'Welford.update: self.m2.value += … not found')
   e = m2[0].stmt.value
-  # structure: m2_batch + delta^2 * n_b * n_a / n   (as a product chain divided by the new count)
-  ok = isinstance(e, ast.BinOp) and isinstance(e.op, ast.Add) and astu.src(e.left) == 'm2' and isinstance(e.right, ast.BinOp) and isinstance(e.right.op, ast.Div) and astu.src(e.right.right) in ('self.count', 'self.count.value')
-  factors = []
+  # symbolic execution of the update over (n_a, mean_a, M2_a) and the batch (n_b, mean_b, M2_b); results compared as rational functions
+  from .. import ratpoly
 
-  def flat(x):
-    if isinstance(x, ast.BinOp) and isinstance(x.op, ast.Mult):
-      flat(x.left)
-      flat(x.right)
-    elif isinstance(x, ast.BinOp) and isinstance(x.op, ast.Pow) and astu.is_const(x.right, 2):
-      factors.extend([astu.src(x.left)] * 2)
-    else:
-      factors.append(astu.src(x))
-  if ok:
-    flat(e.right.left)
-  R.judge(ok and set(factors) <= {'count', 'delta', 'original_count'}, ok and sorted(factors) == ['count', 'delta', 'delta', 'original_count'], key_of(wu, 'm2 += m2_batch + delta^2 * n_batch * n_old / n_new'), (wu, m2[0].stmt),
-          'Welford.update must merge the batch with M2 += M2_batch + delta² · n_batch · n_old / n_new (got `%s`)' % astu.short(e))
+  def state_key(x):
+    t = astu.src(x)
+    return {'self.count.value': 'n', 'self.count': 'n', 'self.mean.value': 'mean', 'self.mean': 'mean', 'self.m2.value': 'M2', 'self.m2': 'M2'}.get(t)
+
+  def atom_of(x):
+    t = astu.src(x)
+    if t in ('values.size', 'len(values)', 'jnp.size(values)'):
+      return 'n_b'
+    if t in ('values.mean()', 'jnp.mean(values)'):
+      return 'mean_b'
+    if t in ('values.var()', 'jnp.var(values)'):
+      return 'var_b'
+    return None
+  def _is_scalar_test(t, fn):
+    if 'isinstance(values' in astu.src(t):
+      return True
+    if isinstance(t, ast.Name):
+      return any(isinstance(d[0], ast.AST) and 'isinstance(values' in astu.src(d[0]) for d in flow.defs(fn, t.id))
+    return False
+
+  def chooser(fn):
+    def ch(ie):
+      if _is_scalar_test(ie.test, fn):
+        return ie.orelse      # the array case; the scalar case is its specialisation (size 1, mean = value, var = 0)
+      if isinstance(ie.test, ast.UnaryOp) and isinstance(ie.test.op, ast.Not) and _is_scalar_test(ie.test.operand, fn):
+        return ie.body
+      raise ratpoly.Unsupported('conditional expression on `%s`' % astu.src(ie.test))
+    return ch
+  ex = ratpoly.SymExec(atom_of, state_key, choose_ifexp=chooser(wu))
+  body = [s_ for s_ in astu.strip_docstring(wu.node.body) if not (isinstance(s_, (ast.Assign, ast.AnnAssign)) and 'kwargs[' in astu.src(s_))]
+  key_m2 = key_of(wu, 'm2 += m2_batch + delta^2 * n_batch * n_old / n_new')
+  try:
+    env = ex.run(body)
+    A = ratpoly.Rat.atom
+    n_new = A('n') + A('n_b')
+    d_ = A('mean_b') - A('mean')
+    want_m2 = A('M2') + A('var_b') * A('n_b') + d_ * d_ * A('n_b') * A('n') / n_new
+    want_mean = (A('mean') * A('n') + A('mean_b') * A('n_b')) / n_new
+    R.check(env.get('n') == n_new, key_of(wu, 'count advanced by the batch size'), wu, 'Welford.update must add the number of values in the batch to the count (got %s)' % (env['n'].show() if 'n' in env else 'no update'), evidence=True)
+    R.check(env.get('mean') == want_mean, key_of(wu, 'mean = count-weighted mean of old mean and batch mean'), wu, 'after Welford.update the mean must be (n_old*mean_old + n_b*mean_b)/(n_old + n_b); the code computes %s' % (env['mean'].show() if 'mean' in env else 'no update'), evidence=True)
+    R.check(env.get('M2') == want_m2, key_m2, (wu, m2[0].stmt), 'Welford.update must merge the batch with M2 += M2_batch + delta^2 * n_batch * n_old / n_new (Chan et al.); as a rational function of (n, mean, M2, n_b, mean_b, var_b) the code computes %s, '
+            'which differs: the reported deviation then depends on how the stream was batched' % (env['M2'].show() if 'M2' in env else 'no update'), evidence=True)
+  except ratpoly.Unsupported as e_:
+    R.unsure(key_m2, (wu, m2[0].stmt), 'Welford.update left the fragment the symbolic evaluator understands: %s' % e_)
+  key_avg = key_of(au, 'total += sum(values); count += number of values')
+  try:
+    exa = ratpoly.SymExec(lambda x: {'values.sum()': 'sum_b', 'jnp.sum(values)': 'sum_b', 'values.size': 'n_b', 'len(values)': 'n_b'}.get(astu.src(x)),
+                          lambda x: {'self.total.value': 'total', 'self.total': 'total', 'self.count.value': 'n', 'self.count': 'n'}.get(astu.src(x)), choose_ifexp=chooser(au))
+    enva = exa.run([s_ for s_ in astu.strip_docstring(au.node.body) if not (isinstance(s_, (ast.Assign, ast.AnnAssign)) and 'kwargs[' in astu.src(s_))])
+    A = ratpoly.Rat.atom
+    R.check(enva.get('total') == A('total') + A('sum_b') and enva.get('n') == A('n') + A('n_b'), key_avg, au, 'Average.update must add the sum of the values to total and their number to count (computed: total=%s, count=%s)' % (
+        enva['total'].show() if 'total' in enva else 'unchanged', enva['n'].show() if 'n' in enva else 'unchanged'), evidence=True)
+  except ratpoly.Unsupported as e_:
+    R.unsure(key_avg, au, 'Average.update left the fragment the symbolic evaluator understands: %s' % e_)
   # integer-overflow hazard: no product of two integer-typed operands
   bad = []
   for n in ast.walk(m2[0].stmt.value):
@@ -253,5 +284,7 @@ meta('C17',
          Mutant('C17-m5', OP, "    self.step.value += 1\n", "", 'C17.R2'),
          Mutant('C17-m6', MT, "    self.count.value = jnp.array(0, dtype=jnp.uint32)\n    self.mean.value = jnp.array(0, dtype=jnp.float32)", "    self.mean.value = jnp.array(0, dtype=jnp.float32)", 'C17.R6'),
          Mutant('C17-m7', OP, "    params = nnx.state(self.model, self.wrt)", "    params = nnx.state(self.model, nnx.Param)", 'C17.R3'),
+         Mutant('C17-m8', MT, "        m2 + delta * delta * count * original_count / self.count\n", "        m2 + delta * delta * original_count * original_count / self.count\n", 'C17.R7', why='seed C17-D (round 2): wrong weight'),
+         Mutant('C17-b2', MT, "        m2 + delta * delta * count * original_count / self.count\n", "        m2 + (delta * original_count) * (delta * count) / self.count.value\n", kind='benign'),
          Mutant('C17-b1', MT, "        m2 + delta * delta * count * original_count / self.count\n", "        m2 + delta**2 * count * original_count / self.count\n", kind='benign'),
      ])
